@@ -226,6 +226,7 @@ class Gen:
         self.budget = 60
         self.ver = None
         self.used_special = set()
+        self.raw_alias = []   # alias definitions whose chain ends at a RAW field
         self.api = False      # trees for the API correspondence: no /VERSION, no legacy types, no /NAMESPACE in the root
 
     def fresh(self):
@@ -368,6 +369,10 @@ class Gen:
                         tg = "f1.r"
                 lines.append(("A", nm, tg))
                 defs.append((nm, cur, "A"))
+                # remember aliases that (through a chain) name a RAW field: usable in /REFERENCE
+                src = [d for d in defs[:-1] if self.reftok(d, cur) == tg and "/" not in d[0]]
+                if src and (src[-1][2] == "R" or src[-1] in self.raw_alias) and "/" not in nm:
+                    self.raw_alias.append(defs[-1])
             elif r < 0.60:                                      # hidden
                 if clean and not (self.ge(9) and slash):
                     continue
@@ -409,6 +414,9 @@ class Gen:
                 if clean and not (self.ge(6) and slash):
                     continue
                 raws = [d for d in defs if d[2] == "R" and (d[1] == cur or self.ge(10))]
+                ral = [d for d in self.raw_alias if d in defs and (d[1] == cur or self.ge(10))]
+                if ral and self.ge(9) and rng.random() < 0.45:
+                    raws = ral                                  # /REFERENCE through an alias (chain)
                 q = rng.random()
                 if raws and (clean or q < 0.8):
                     lines.append(("R", self.reftok(rng.choice(raws), cur)))
@@ -573,7 +581,7 @@ def api_case(rng, d, maxdepth):
                 ns = rng.choice(["M2", "M2.N2", "A"])
                 sc.append("NS\t%d\t%s" % (idx, ns))
             final[k] = ("I", l[1], (ns + "." if ns else "") + px, sx, l[4])
-    return "\n".join(sc) + "\n", [("V", 10)] + final, w.files, [("V", 10)] + root
+    return "\n".join(sc) + "\n", [("V", 10)] + final, w.files, root
 
 
 def deep_chain(rng, depth):
@@ -641,6 +649,32 @@ def fixed_witnesses(chk, exe, root):
         chk.violation("include/endian-arm-scope", "ARM flag of the fragments %s, expected %s" % (arm, want), {"kind": "impl-vs-spec", "files": files}, found=True)
     elif not arm:
         chk.violation("include/endian-arm-scope", "no fragment is ARM-endian after /ENDIAN big arm: " + out[:200], {"kind": "impl-vs-spec", "files": files}, found=True)
+
+
+def name_level(b, fi):
+    """what the recorded gd_alter_affixes finding leaves intact: every entry with its name, fragment, kind, hidden flag,
+    RAW file / LINTERP table, the data read-back, and the records of all fragments outside the sub-tree below fi"""
+    par = {}
+    for f in b["F"]:
+        kv = dict(x.split("=", 1) for x in f.split()[2:])
+        par[f.split()[1]] = kv["parent"]
+    def below(j):
+        while j in par and par[j] != "-1":
+            j = par[j]
+            if j == fi:
+                return True
+        return False
+    out = [f for f in b["F"] if not below(f.split()[1])]
+    for e in b["E"]:
+        p = e.split()
+        kv = dict(x.split("=", 1) for x in p[2:])
+        keep = [p[0], p[1], "frag=" + kv["frag"], "kind=" + kv["kind"], "hid=" + kv["hid"]]
+        if kv["kind"] == "R":
+            keep += ["x=" + kv["x"], "ty=" + kv.get("ty", "")]
+        if kv["kind"] == "L":
+            keep += ["tab=" + kv.get("tab", "")]
+        out.append(" ".join(keep))
+    return sorted(out + b["G"])
 
 
 # ------------------------------------------------------------- comparison
@@ -773,12 +807,19 @@ def main():
             rc1, rc2, len(IB), len(MB), len(trees), (out1[-300:] + out2[-600:])), {"kind": "harness"}, found=False)
         return chk.finish()
 
-    # an API script that fails BEFORE its gd_alter_affixes / gd_fragment_namespace call is judged against the
-    # tree it had built up to there (the inclusion with its ORIGINAL affixes), not against the final one
-    early = [i for i in sorted(api_pre) if tags[i] == "api-post" and IB[i]["status"] == "ERR"
-             and not IB[i].get("N", "").startswith(("N AFFIX", "N NS"))]
+    # an API script that fails at a call BEFORE its last one is judged against the tree it had built up to and
+    # including the failing call (for an api-post case: the inclusion with its ORIGINAL affixes).  In particular
+    # gd_include* honours the /REFERENCE of the fragment it includes at once: the prefix tree ends with that
+    # fragment, so its /REFERENCE is the last one there too.
+    def failed_line(b):
+        n = b.get("N", "")
+        if b["status"] != "ERR" or not n.startswith("N ") or n.startswith(("N AFFIX", "N NS")) or " at " not in n:
+            return None
+        return int(n.rsplit(" at ", 1)[1])
+    early = [i for i in sorted(api_pre) if failed_line(IB[i]) is not None]
     if early:
-        rc3, out3 = vlib.sh([drv], inp=("\n".join(ser_tree(api_pre[i]) for i in early) + "\n").encode(), timeout=3000)
+        pre = {i: [("V", 10)] + api_pre[i][:max(failed_line(IB[i]) - 1, 0)] for i in early}
+        rc3, out3 = vlib.sh([drv], inp=("\n".join(ser_tree(pre[i]) for i in early) + "\n").encode(), timeout=3000)
         EB = parse_blocks(out3)
         if rc3 != 0 or len(EB) != 2 * len(early):
             chk.violation("harness", "driver failed on the pre-operation trees", {"kind": "harness"}, found=False)
@@ -787,7 +828,7 @@ def main():
             add_data_lines(b)
         for k, i in enumerate(early):
             MB[2 * i], MB[2 * i + 1] = EB[2 * k], EB[2 * k + 1]
-            trees[i] = api_pre[i]
+            trees[i] = pre[i]
             tags[i] = "api"
     nontriv = set()
     stat = {"OK": 0, "ERR": 0, "CRASH": 0, "UNSPEC-spec": 0, "deviations": 0}
@@ -830,6 +871,14 @@ def main():
                 chk.violation("api/fragment-attributes", "after %s fragment %s is %s; the parser gives %s for the equivalent /INCLUDE" % (
                     post[0].replace("\t", " "), fi, fa, fs), dict(replay, kind="impl-vs-spec"), found=True)
                 continue
+        if (tags[i] == "api-post" and cs != "UNSPEC" and ci != cs and ci != cm and ib["status"] == "OK" and sb["status"] == "OK"
+                and name_level(ib, fi) != name_level(sb, fi)):
+            # NOT the recorded finding: that one leaves input codes, alias targets and sub-fragment records stale,
+            # but every entry NAME (with fragment, kind, hidden flag, RAW file, LINTERP table) is the parser's
+            chk.violation("api/alter-affixes-entry-names", "after %s the entry names / fragments of tree %s are %s; parsing the equivalent format files gives %s" % (
+                post[0].replace("\t", " "), ser_tree(t)[:200], sorted(set(name_level(ib, fi)) - set(name_level(sb, fi)))[:6],
+                sorted(set(name_level(sb, fi)) - set(name_level(ib, fi)))[:6]), dict(replay, kind="impl-vs-spec"), found=True)
+            continue
         if (tags[i] == "api-post" and cs != "UNSPEC" and ci != cs and ci != cm
                 and not (ib["status"] == "ERR" and not ib.get("N", "").startswith(("N AFFIX", "N NS")))):
             # gd_alter_affixes / gd_fragment_namespace rename the entry names only (recorded finding)
@@ -837,11 +886,6 @@ def main():
                 ser_tree(t)[:200], ci[:400], cs[:400]), dict(replay, kind="impl-vs-spec", attr=attr), found=True)
             confirmed.add(K_API_RENAME)
             stat["deviations"] += 1
-            continue
-        if tags[i].startswith("api") and ib["status"] == "ERR" and "INC failed: -21" in ib.get("N", "") and cs != "ERR":
-            # gd_include honours the /REFERENCE of the fragment it includes at once (GD_E_BAD_REFERENCE),
-            # a format file only needs its LAST /REFERENCE to be good: documented difference, case skipped
-            stat["api-skipped"] = stat.get("api-skipped", 0) + 1
             continue
         if tags[i] == "api" and cs != "UNSPEC" and ci != cm:
             strip = lambda c: "\n".join(ln.split(" res=")[0] if ln.startswith("E ") and " kind=A " in ln else ln for ln in c.split("\n"))
